@@ -259,13 +259,17 @@ def r_create_domain(ck: Checker) -> None:
     ck.add("domain rules are emitted for EVERY symbolic atom of a condition (also inside conditional literals and aggregates)", ok, cdc, rec[0], f"iterates `{unparse(outer.iter) if outer is not None else None}`",
            "a domain predicate used in a condition but never defined is empty: the domain of the depending predicate collapses")
     # the predicate whose domain rules are emitted is the one whose DOMAIN predicate the atom is: name and arity
-    picks = [c for c in attr_calls(cdc, "append") if enclosing_loop(cdc, c) is not None and "self.domains.items()" in unparse(enclosing_loop(cdc, c).iter)]  # type: ignore[union-attr]
-    ck.need(len(picks) == 1, "__create_domain_for_condition looks the original predicate up in self.domains")
-    lpk = enclosing_loop(cdc, picks[0])
-    kv = [unparse(e) for e in lpk.target.elts] if isinstance(lpk.target, ast.Tuple) and len(lpk.target.elts) == 2 else ["?", "?"]  # type: ignore[union-attr]
+    dloops = [lp_ for lp_ in find_nodes(cdc.node, lambda q: isinstance(q, ast.For)) if "self.domains.items()" in unparse(lp_.iter) and isinstance(lp_.target, ast.Tuple) and len(lp_.target.elts) == 2]  # type: ignore[attr-defined]
+    ck.need(len(dloops) == 1, "__create_domain_for_condition looks the original predicate up in self.domains")
+    lpk = dloops[0]
+    kv = [unparse(e) for e in lpk.target.elts]  # type: ignore[attr-defined]
+    # where the key is recorded: `found.append(key)` or `found = key` (the search loop of `next(...)`)
+    picks = [c for c in attr_calls(cdc, "append") if enclosing_loop(cdc, c) is lpk and unparse(c.args[0]) == kv[0]]
+    picks += [a for a in find_nodes(lpk, lambda q: isinstance(q, ast.Assign)) if unparse(a.value) == kv[0]]  # type: ignore[attr-defined]
+    ck.need(len(picks) == 1, "the matching key is recorded at one site")
     sym_txts = [t for st_ in itc.states(picks[0]) for t in [itc.text(ast.Name("symbol", ast.Load()), st_)]]
     want_eq = [f"{kv[1]} == Predicate({s}.name, len({s}.arguments))" for s in set(sym_txts) | {"symbol"}]
-    okp = unparse(picks[0].args[0]) == kv[0] and any(itc.holds(picks[0], w) for w in want_eq)
+    okp = any(itc.holds(picks[0], w) for w in want_eq)
     ck.add("the original predicate is found by the atom's name AND arity", okp, cdc, picks[0], f"`{short(unparse(picks[0]), 50)}` dominated by `{kv[1]} == Predicate(symbol.name, len(symbol.arguments))`: {okp}",
            "`__dom_skill/2` and `__dom_skill/3` share a name: a look-up by name emits the rules of the wrong predicate and leaves the other domain predicate without any rule (empty domain, the chain collapses)")
     hd = ck.func(f"{DP}.has_domain")
